@@ -1712,6 +1712,32 @@ def check(ck):
     # the 'Z' suffix isoformat() writes for UTC must be read as UTC explicitly (or by isoparse / an explicit tzinfos table) -- D54
     dd_ = FA(ck, MC + ".decode_datetime")
     ddp = _first_param(dd_, "state")
+    from .fresh import path_cases
+    zlit = "%s.endswith('Z')" % ddp
+
+    def is_text(e):
+        return isinstance(e, ast.Name) and e.id == ddp
+
+    def z_cut_off(e):
+        """state[:-1] / state[0:-1] / state[:len(state) - 1] / state.removesuffix('Z') / state.rstrip('Z')"""
+        if isinstance(e, ast.Subscript) and is_text(e.value) and isinstance(e.slice, ast.Slice) and e.slice.step is None:
+            lo, up = e.slice.lower, e.slice.upper
+            minus = isinstance(up, ast.UnaryOp) and isinstance(up.op, ast.USub) and _int_const(up.operand) == 1   # -1 / -len('Z')
+            if (lo is None or _int_const(lo) == 0) and up is not None and (minus or A.norm(up) in ("len(%s) - 1" % ddp, "len(%s) - len('Z')" % ddp)):
+                return True
+        return isinstance(e, ast.Call) and isinstance(e.func, ast.Attribute) and e.func.attr in ("removesuffix", "rstrip") and is_text(e.func.value) \
+            and len(e.args) == 1 and A.const_str(e.args[0]) == "Z"
+
+    def compatible(ca, cb):
+        return any(not any((t, not pol) in y for (t, pol) in x) for x in (ca or [frozenset()]) for y in (cb or [frozenset()]))
+
+    def gives_utc(n):
+        """<value>.replace(tzinfo=<UTC>)"""
+        return isinstance(n, ast.Call) and isinstance(n.func, ast.Attribute) and n.func.attr == "replace" and A.kwarg(n, "tzinfo") is not None \
+            and any(w in A.norm(A.kwarg(n, "tzinfo")) for w in ("UTC", "utc", "tzutc"))
+
+    rcases = return_cases(dd_)
+    ck.need(rcases is not None, "decode_datetime: too many paths to enumerate what it returns")
     n_parse = 0
     for c in dd_.calls():
         if A.call_attr(c) != "parse" and not (isinstance(c.func, ast.Name) and c.func.id == "parse"):
@@ -1722,26 +1748,29 @@ def check(ck):
         if any(k.arg == "tzinfos" for k in c.keywords):
             continue
         at = dd_.nodes(c)[0]
-        arg = dd_.xnorm(c.args[0], at)
-        zlit = "%s.endswith('Z')" % ddp
-        conds = dd_.conditions(c)
-        stripped = arg in ("%s[:-1]" % ddp, "%s[0:-1]" % ddp, "%s.removesuffix('Z')" % ddp, "%s.rstrip('Z')" % ddp)
-        if stripped:
-            # the suffix is cut off: the parsed (naive) value has to be given UTC explicitly wherever it flows to a return
-            utc = False
-            for r in dd_.returns():
-                t = dd_.xnorm(r.value, dd_.nodes(r)[0]) if r.value is not None and dd_.nodes(r) else ""
-                if A.norm(c.args[0]) in t or arg in t:
-                    utc = "replace(tzinfo=" in t and any(w in t for w in ("UTC", "utc", "tzutc"))
-                    if not utc:
-                        break
-            ok = utc
-            why = "the 'Z' suffix is cut off but the parsed value is not given UTC: a UTC datetime comes back naive"
-        else:
-            ok = conds is not None and bool(conds) and all((zlit, False) in cj for cj in conds) and arg == ddp
-            why = ("dateutil.parser.parse is handed the text with its 'Z' suffix: it reports the zone name 'UTC' and attaches the LOCAL zone "
-                   "when that is also called UTC (TZ=UTC+3): Memento.time and every UTC datetime argument shift by the local offset "
-                   "in the round trip, and the argument hash recomputed from the file differs from the stored one")
+        acases = path_cases(dd_, c.args[0], at, also=(ddp,))
+        ck.need(acases is not None, "decode_datetime: too many paths to tell what text the parser receives")
+        ok, why = True, ""
+        for (av, a_at, aconds) in acases:
+            ae = _strip_cast(dd_.expand(av, a_at))
+            if z_cut_off(ae):
+                # the suffix is cut off: wherever the parsed (naive) value flows into what is returned, it has been given UTC on the way
+                for (rv, r_at, rconds) in rcases:
+                    if rv is None or not compatible(aconds, rconds):
+                        continue
+                    if not any(n is c for (n, _a) in flow_nodes(dd_, rv, r_at)):
+                        continue
+                    if any(n is c for (n, _a) in flow_nodes(dd_, rv, r_at, stop=gives_utc)):
+                        ok, why = False, "the 'Z' suffix is cut off but the parsed value is not given UTC: a UTC datetime comes back naive"
+            elif is_text(ae):
+                if not (aconds and all((zlit, False) in cj for cj in aconds)):
+                    ok = False
+                    why = why or ("dateutil.parser.parse is handed the text with its 'Z' suffix: it reports the zone name 'UTC' and attaches the LOCAL zone "
+                                  "when that is also called UTC (TZ=UTC+3): Memento.time and every UTC datetime argument shift by the local offset "
+                                  "in the round trip, and the argument hash recomputed from the file differs from the stored one")
+            else:
+                ok = False
+                why = why or "dateutil.parser.parse is handed `%s`: it cannot be told that a 'Z' suffix never reaches the zone-name lookup of the parser" % A.short(ae, 50)
         ck.ob(R1, dd_.key(c, "zone-name-not-left-to-the-parser"), ok,
               "a 'Z' suffix never reaches the zone-name lookup of the parser" if ok else why, dd_.where(c))
     ck.need(n_parse >= 1 or bool(dd_.calls("isoparse")) or bool(dd_.calls("fromisoformat")), "decode_datetime: no parser call found")
